@@ -282,7 +282,7 @@ class World:
                 return f'<{type(o).__name__}>'
             if id(o) not in ids:
                 ids[id(o)] = len(ids) + 1
-                dicts.append({'type': type(o).__name__, 'kv': {str(k): val(o[k]) for k in sorted(dict(o), key=str)}})
+                dicts.append({'type': type(o).__name__, 'kv': {str(k): val(dict.__getitem__(o, k)) for k in sorted(dict(o), key=str)}})      # raw entries: the key as stored
             return ids[id(o)]
         for s in range(1, nslots + 1):
             if s not in self.slots:
